@@ -259,6 +259,23 @@ func runHarness(ws []*interp.Worker, name string, maxPaths int) *HarnessReport {
 		}
 	}
 	var wg sync.WaitGroup
+	stopProgress := make(chan struct{})
+	if os.Getenv("GOSYM_PROGRESS") != "" {
+		go func() {
+			tk := time.NewTicker(5 * time.Second)
+			defer tk.Stop()
+			for {
+				select {
+				case <-stopProgress:
+					return
+				case <-tk.C:
+					mu.Lock()
+					fmt.Fprintf(os.Stderr, "  [%s] %.0fs paths=%d queue=%d active=%d %v viol=%v\n", name, time.Since(t0).Seconds(), hr.Paths, len(queue), active, hr.ByStatus, violSeen)
+					mu.Unlock()
+				}
+			}
+		}()
+	}
 	for _, w := range ws {
 		wg.Add(1)
 		go func(w *interp.Worker) {
@@ -341,6 +358,7 @@ func runHarness(ws []*interp.Worker, name string, maxPaths int) *HarnessReport {
 		}(w)
 	}
 	wg.Wait()
+	close(stopProgress)
 	if hr.Truncated {
 		hr.Problems = append(hr.Problems, "path cap reached: exploration truncated")
 	}
